@@ -130,6 +130,8 @@ def oracle(ctx):
             tags = [t for t in tags_of(body, kind) if t[0].lower().startswith('d') and t[0] not in ('Dno',)]
             want = []
             for p in e['merged']:
+                if files.get(p, None) == '':
+                    continue   # an empty drop-in survives (and hides the later ones of its name) but has nothing to contribute
                 cn = os.path.basename(p)
                 tag = (os.path.dirname(p)[len(base) + 1:] + '/' + cn).replace('/', '_')
                 want.append((('D' if kind == 'container' else 'd') + cn[:2], tag))
